@@ -700,6 +700,8 @@ def agree(case, i, ia, ma):
             nb, jb = parts[0], parts[1]
             if na != nb:
                 return False
+            if not na.strip():
+                return ja.strip() == jb.strip()  # no named parameter: an empty Jacobian on both sides
             if i == 0 and len(parts) == 3 and parts[1] != parts[2]:
                 # a data set maps two parameters to one global (F9): the model gives the code's buffered update and
                 # the accumulating one; the implementation must be one of them (the oracle says which is right)
